@@ -16,7 +16,7 @@ def budget(tier):
 
 
 def gen(rng, index, tier):
-    raw, meta = lib.gen_dataset(rng, nmax=7 if tier == "quick" else 10, mmax=5, big=0.03)
+    raw, meta = lib.gen_dataset(rng, nmax=7 if tier == "quick" else 10, mmax=5, big=0.03, big_nmax=130)
     n = len(lib.dataset_elems(raw))
     return {"dataset": raw, "scheme": lib.gen_scheme(rng, max_pairs=len(raw) * n * n + 1), "meta": meta}
 
